@@ -84,4 +84,8 @@ theorem C10_sexa_roundtrip (A : Arith) (hA : A.Accurate) (frac base : Nat) (hb :
   obtain ⟨_, _, h3⟩ := render_sexa_text hb h
   exact ⟨_, h3, sexa_numeric hA hb hx _ rfl⟩
 
+/-- instance obligation, re-decided on every run: the table the code uses (regenerated) is the protocol's table
+the oracle pins -/
+theorem sexa_table_pinned : ∀ frac, frac < 64 → sexaBase frac = Spec.Num.specSexaBase frac := by decide +kernel
+
 end Indi.Num
